@@ -5,7 +5,7 @@
     is reachable from the empty storage by a fault-free history of obtain / renew / manage /
     revocation (by the CA, or RevokeCert) steps for the subject, with arbitrary issuer answers". *)
 From Coq Require Import List NArith ZArith Bool.
-From CM Require Import Bundle.Model Bundle.Proofs Bundle.Recency Bundle.Faults Bundle.Check Gen.Consts.
+From CM Require Import Bundle.Model Bundle.Proofs Bundle.Recency Bundle.Faults Bundle.ErrSucc Bundle.Check Bundle.Sound6 Gen.Consts.
 Import ListNotations.
 Open Scope N_scope.
 
@@ -19,6 +19,23 @@ Theorem C06_success_bundle_complete : forall cfg sp c orc h r c',
                 c_pub x = k /\ c_sub x = s_id sp.
 Proof. exact m_success_bundle_complete. Qed.
 Print Assumptions C06_success_bundle_complete.
+
+(** the first clause under storage faults: whatever Storage calls fail (ANY plan: arbitrary set of
+    failing call indices; a call that returned has not died), an obtain / renew / manage that REPORTS
+    SUCCESS has left a complete, matching bundle for the subject in some configured issuer's directory.
+    ([save] returns Ok only when all three Stores succeeded; reads never lie: a failing read is an error
+    or, for Exists, "absent". No revocation pending: forceRenew's retry loop is outside the model.)
+    This is the statement the check's monitor enforces on steps with injected storage errors. *)
+Theorem C06_success_bundle_complete_under_faults : forall pl cfg sp orc h w r,
+  reach6 cfg sp (w_core w) -> k_ocsp (w_core w) = [] -> canonical sp -> oracle_ok cfg orc -> is_op h = true ->
+  fst (run_hop pl cfg sp orc h w) = Ok r ->
+  exists i, In i (issuers cfg) /\
+    exists k x m, bundle_at (w_st (snd (run_hop pl cfg sp orc h w))) i (s_save sp) = Some (i, k, x, m) /\
+                  c_pub x = k /\ c_sub x = s_id sp.
+Proof.
+  intros pl cfg sp orc h w r HR. apply success_bundle_complete_under_faults. apply reach6_inv, HR.
+Qed.
+Print Assumptions C06_success_bundle_complete_under_faults.
 
 (** saving a bundle and loading that issuer's bundle back yields exactly what was saved *)
 Theorem C06_load_roundtrip : forall c i d k x m,
@@ -179,6 +196,15 @@ Theorem C06_most_recently_issued_loaded : forall cfg sp c d i k x m c',
 Proof. exact most_recently_issued_loaded. Qed.
 Print Assumptions C06_most_recently_issued_loaded.
 
+(** the check's recency clause ([Check.spec_recent], evaluated by [check_line6] on the implementation's
+    observation as long as the history is forward) holds of the model's own observation of every step of
+    a forward history: the monitor and [C06_most_recently_issued_loaded] say the same thing *)
+Theorem C06_monitor_sound_recent : forall cfg sp orc h w,
+  reach6f cfg sp (w_core w) -> forward orc (k_st (w_core w)) -> s_load sp = s_save sp ->
+  spec_recent cfg sp h (fst (model_step no_faults cfg sp w h orc)) = true.
+Proof. exact monitor_sound_recent. Qed.
+Print Assumptions C06_monitor_sound_recent.
+
 (** ... and false when an issuer backdates behind a stored certificate: A issues serial 0 dated 20,
     a forced renewal goes to B (A down), which issues serial 1 dated 10: every load returns A's
     certificate although B's was issued later *)
@@ -205,6 +231,20 @@ Proof.
   vm_compute. reflexivity.
 Qed.
 Print Assumptions C06_most_recently_issued_refuted_backdating.
+
+(** * the check's monitor and the theorems say the same thing
+    [Check.spec_state] = the state clauses [check_line6] evaluates on the IMPLEMENTATION's observation of
+    every step (complete matching bundle; reload returns the newest bundle; cached certificate names the
+    identifier; compromised key not served again). Evaluated on the model's own observation of a step from
+    any reachable state it is true, under the hypotheses of the partial theorems (consistent spelling; one
+    issuer or no key reuse) - the two excluded classes are the two known findings. The revocations the
+    monitor knows ([env]) are the model's [k_ocsp]. *)
+Theorem C06_monitor_sound_state : forall cfg sp orc h w,
+  reach6 cfg sp (w_core w) -> oracle_ok cfg orc -> s_load sp = s_save sp ->
+  (n_iss cfg = 1%nat \/ reuse cfg = false) ->
+  spec_state cfg sp (k_ocsp (w_core w)) (w_st w) h (fst (model_step no_faults cfg sp w h orc)) = true.
+Proof. exact monitor_sound_state. Qed.
+Print Assumptions C06_monitor_sound_state.
 
 (** non-vacuity of the hypotheses *)
 Example C06_reachable_nontrivial :
@@ -277,3 +317,13 @@ Example C06_reuse_obtain_hypotheses_met :
   let a := snd (run_hop_pure cfg w6_sp (Oracle [None; w6_up 10] []) HObtain empty_core) in
   first_key_i (k_st a) (issuers cfg) (s_pre w6_sp) = Some (1%nat, 0) /\ reuse cfg = true.
 Proof. vm_compute. split; reflexivity. Qed.
+
+(** a faulted run that still reports success: the first Exists of the pre-check fails (answers "absent"),
+    the obtain goes on and stores the bundle; and one that reports the error: the Store of the .crt fails *)
+Example C06_faulted_success_and_faulted_error :
+  let orc := Oracle [w6_up 10] [] in let cfg := Config 1 false false in
+  fst (run_hop (single_error 0) cfg w6_sp orc HObtain empty_world) = Ok None /\
+  length (w_st (snd (run_hop (single_error 0) cfg w6_sp orc HObtain empty_world))) = 3%nat /\
+  fst (run_hop (single_error 8) cfg w6_sp orc HObtain empty_world) = Fail EInjected /\
+  w_st (snd (run_hop (single_error 8) cfg w6_sp orc HObtain empty_world)) = [].
+Proof. vm_compute. repeat split. Qed.
